@@ -369,7 +369,8 @@ fn down_body(form: Form, shape: usize, pos: Pos, j: usize, b: &str, k: Ks) -> (S
             Some(i) => (txt[..i].to_string(), txt[i + 6..].to_string()),
             None => (String::new(), txt.clone()),
         };
-        return (format!("({{ {stmts}\n     |zq_l{j}| {last} + zq_l{j} }})(0.0)"), lin);
+        // the quoted block itself is the one that yields the function; every use applies it to 0.0
+        return (format!("{stmts}\n     |zq_l{j}| {last} + zq_l{j}"), lin);
     }
     match form {
         Form::Let | Form::TupleLet | Form::NestedTupleLet | Form::LetOverNested => match pos {
@@ -509,6 +510,8 @@ struct ArgCtx<'a> {
     uref: &'a str,
     uval: f64,
     macros: &'a [Lin],
+    /// appended to every macro use: "(0.0)" when the quoted body yields a function, else ""
+    apply: &'a str,
 }
 
 impl A {
@@ -523,7 +526,7 @@ impl A {
             A::Lam(i, a, b) => format!("(|zu{i}| {})({})", b.print(cx), a.print(cx)),
             A::Loc(i) => format!("zu{i}"),
             A::If(c, a, b) => format!("(if ({} > 0.0) {{ {} }} else {{ {} }})", c.print(cx), a.print(cx), b.print(cx)),
-            A::Mac(j, a) => format!("zq_m{j}!(`({}))", a.print(cx)),
+            A::Mac(j, a) => format!("zq_m{j}!(`({})){}", a.print(cx), cx.apply),
         }
     }
     fn eval(&self, cx: &ArgCtx, env: &mut Vec<(usize, f64)>) -> f64 {
@@ -711,7 +714,8 @@ fn build_down(spec: &DownSpec, rng: &mut Rng) -> HCase {
     }
     let mentions = !matches!(spec.pos, Pos::Surrounding | Pos::Unrelated);
     let (uref, uval) = user_ref(spec.ukind, n, uv, rng);
-    let cx = ArgCtx { uref: &uref, uval, macros: &lins };
+    let apply = if spec.form == Form::Let && spec.shape & 2 != 0 { "(0.0)" } else { "" };
+    let cx = ArgCtx { uref: &uref, uval, macros: &lins, apply };
     // A `let`-like binder stays visible until the end of the enclosing function on the
     // unchanged tree (a finding of its own, classes `after-binder-block-closed` /
     // `after-the-expansion`). To keep the other classes' observations clean, a nested macro use
@@ -742,7 +746,7 @@ fn build_down(spec: &DownSpec, rng: &mut Rng) -> HCase {
     }
     let e = arg.eval(&cx, &mut vec![]);
     let outer = nm - 1;
-    let call = format!("zq_m{outer}!(`({}))", arg.print(&cx));
+    let call = format!("zq_m{outer}!(`({})){apply}", arg.print(&cx));
     let mut expected = lins[outer].at(e);
     let (pre, expr) = match spec.pos {
         Pos::Surrounding => {
